@@ -100,7 +100,27 @@ def chain_funcs(node: Node) -> str:
     return ' -> '.join(fr.ctx.func.name for fr in node.frame.chain())
 
 
-def unguarded_path(e, g, site, alternatives, start=None):
+def decided_tests(e, g, w):
+    """tests on the witness path w whose outcome the tracked values settle
+    (`kind in _SETTLED` with kind = the constant a helper returned on this
+    very path): they are evidence, not guesses"""
+    nul = Nullness(g, e)
+    ns = frozenset()
+    out = set()
+    for n, label in w or []:
+        if n.kind == 'test' and label in ('T', 'F') and \
+                nul._eval(n.ast, n.frame, ns) is not None:
+            out.add(n)
+        if label is None:
+            break
+        r = nul.step(n, label, ns)
+        if r == 'infeasible':
+            break
+        ns = r
+    return out
+
+
+def unguarded_path(e, g, site, alternatives, start=None, site_ok=None):
     """Path from entry to `site` on which none of the alternative atoms
     (list of (pol, key)) was established by a branch test, or None.
     Use for disjunctive guards (`if not a or b < c: site()`), which a
@@ -192,9 +212,13 @@ def unguarded_path(e, g, site, alternatives, start=None):
                 if ok:
                     return True
         return False
+    # site_ok(get): restricts the search to arrivals at the site with
+    # certain tracked values (get(path) = 'none' / ('c', repr) / None)
     return dataflow.typestate_witness(
         g, (False, frozenset(), frozenset()), step,
-        lambda n, st: n is site and not st[0], start=start)
+        lambda n, st: n is site and not st[0] and (
+            site_ok is None or site_ok(lambda q: nul._get(st[1], q))),
+        start=start)
 
 
 def per_iteration_counts(g, lp, count, cap=3):
@@ -711,6 +735,38 @@ class Nullness:
 _MC_MISSING = object()
 
 
+def local_dict_keys(fn, name):
+    """key expressions of `name = {K1: ..., K2: ...}` when that is the only
+    binding of the local in function fn and no statement adds or removes a
+    key (`name[k] = v`, del, update / setdefault / pop / clear ...); None
+    otherwise"""
+    import ast as _ast
+    from ..model import walk_own
+    if name in fn.params:
+        return None
+    stores = [x for x in walk_own(fn.node) if isinstance(x, _ast.Name) and
+              x.id == name and isinstance(x.ctx, (_ast.Store, _ast.Del))]
+    ds = [a for a in walk_own(fn.node) if isinstance(a, _ast.Assign) and
+          len(a.targets) == 1 and isinstance(a.targets[0], _ast.Name) and
+          a.targets[0].id == name]
+    if len(stores) != 1 or len(ds) != 1 or \
+            not isinstance(ds[0].value, _ast.Dict) or \
+            any(k is None for k in ds[0].value.keys):
+        return None
+    for x in walk_own(fn.node):
+        if isinstance(x, _ast.Subscript) and \
+                isinstance(x.ctx, (_ast.Store, _ast.Del)) and \
+                isinstance(x.value, _ast.Name) and x.value.id == name:
+            return None
+        if isinstance(x, _ast.Call) and isinstance(x.func, _ast.Attribute) \
+                and isinstance(x.func.value, _ast.Name) and \
+                x.func.value.id == name and x.func.attr in (
+                    'update', 'setdefault', 'pop', 'popitem', 'clear',
+                    '__setitem__', '__delitem__'):
+            return None
+    return list(ds[0].value.keys)
+
+
 def module_const(mod, name, depth=0):
     """Python value of a module-level constant: NAME = <literal>, one of
     `A, B, C = range(3)` / `A, B = 1, 2`, or a tuple of such names
@@ -746,11 +802,17 @@ def module_const(mod, name, depth=0):
             return -x.operand.value
         if isinstance(x, _ast.Name):
             return module_const(mod, x.id, depth + 1)
-        if isinstance(x, (_ast.Tuple, _ast.List)):
+        if isinstance(x, (_ast.Tuple, _ast.List, _ast.Set)):
             vals = [lit(el) for el in x.elts]
             if any(y is _MC_MISSING for y in vals):
                 return _MC_MISSING
             return tuple(vals)
+        if isinstance(x, _ast.Call) and isinstance(x.func, _ast.Name) and \
+                x.func.id in ('frozenset', 'set', 'tuple', 'list') and \
+                len(x.args) == 1 and not x.keywords and \
+                isinstance(x.args[0], (_ast.Tuple, _ast.List, _ast.Set)):
+            # frozenset([A, B]): the members, for membership tests
+            return lit(x.args[0])
         return _MC_MISSING
     if pos is None:
         return lit(v)
@@ -846,6 +908,11 @@ def _nullness_eval(self, t, frame, st):
         lv = self._value(t.left, frame, st)
         rt = t.comparators[0]
         if isinstance(op, (_ast.In, _ast.NotIn)):
+            if isinstance(rt, _ast.Name):
+                # a local dict with a fixed set of constant keys
+                dk = local_dict_keys(frame.ctx.func, rt.id)
+                if dk is not None:
+                    rt = _ast.Tuple(elts=dk, ctx=_ast.Load())
             if isinstance(rt, _ast.Name) and self.e is not None:
                 # a module-level tuple of constants
                 tv = module_const(frame.ctx.func.module, rt.id)
